@@ -14,7 +14,7 @@ L = {
          'plain_data_along_runs; side condition D15). Critical ties: FUNCTIONS key set, capability-based import / external-call whitelist, grammar. '
          'Correspondence: builtin x argument-shape matrix; monitors: deep type walk, audit hook, first-use audit in a pristine interpreter.',
          'the I/O half rests on the whitelist tie + audit monitors, not on a theorem about CPython.'),
- 'C03': ('Theorems: every element-adding operation at 10000 elements -> ParserError and no state change; push grows by exactly one; conversely a successful push / insert had room (push_success_shape, insert_success_shape) and leaves every object within max(cap, length before) (push_insert_keep_cap), setitem_success_within_cap; concat_doubles (D10). '
+ 'C03': ('Theorems: every element-adding operation at 10000 elements -> ParserError and no state change; push grows by exactly one; conversely a successful push / insert had room (push_success_shape, insert_success_shape) and leaves every object within max(cap, length before) (push_insert_keep_cap), setitem_success_within_cap; slice_selects_at_most_length / slice_read_no_longer_than_source (any slice, any bounds and step, returns at most the source length); concat_doubles (D10). '
          'Tie: MAX_ARRAY_SIZE. Correspondence: container op sequences around the cap; monitor: every adder form incl. multi-step targets on full containers.',
          'global bound is false as stated (findings D10, D11, D18).'),
  'C04': ('Theorems: fix_digits, mul_is_decimal, pow_is_decimal, dec_ops_fix_digits, sub_div_digits, min/max return an argument, abs <= 28, sum_of_decimals_digits, round_digits_arg; D12/D13 witnesses. '
